@@ -1290,6 +1290,31 @@ impl OpenOptions {
     pub fn open<P: AsRef<Path>>(&self, path: P) -> Result<File> {
         let path = path.as_ref().to_path_buf();
 
+        // Same validation as std (`get_access_mode` / `get_creation_mode`):
+        // these combinations fail with EINVAL before anything is touched.
+        let invalid = || {
+            Error::new(
+                ErrorKind::InvalidInput,
+                "invalid combination of open options",
+            )
+        };
+        if !self.read && !self.write && !self.append {
+            return Err(invalid());
+        }
+        match (self.write, self.append) {
+            (true, false) => {}
+            (false, false) => {
+                if self.truncate || self.create || self.create_new {
+                    return Err(invalid());
+                }
+            }
+            (_, true) => {
+                if self.truncate && !self.create_new {
+                    return Err(invalid());
+                }
+            }
+        }
+
         FsContext::current(|ctx| {
             // Follow symlinks to resolve the actual file path
             let resolved_path = if ctx.fs.symlink_exists(&path) {
